@@ -548,3 +548,55 @@ pub fn for_steps() -> Vec<Snip06> {
     }
     out
 }
+
+
+// ---------------------------------------------------------------------------
+// Conversions of two values that are closer together than the tolerance of the interpreter's comparisons
+// (0.00001) but lie on different sides of a rounding tie or of a range limit, one right after the other.
+// ---------------------------------------------------------------------------
+
+pub fn close_pairs() -> Vec<Snip06> {
+    let mut out = vec![];
+    let eps = 2f64.powi(-20); // 9.5e-7, exactly representable next to the values below
+    for target in [Ty::Int, Ty::Long] {
+        let (lo, hi) = bounds(target);
+        for centre in [2.5, -2.5, 0.5, 100.5, hi + 0.5, lo - 0.5, hi - 0.5] {
+            for order in 0..2 {
+                for src in [Ty::Double, Ty::Single] {
+                    let (x, y) = if order == 0 { (centre - eps, centre + eps) } else { (centre + eps, centre - eps) };
+                    let (Some(lx), Some(ly)) = (literal_of(x, src), literal_of(y, src)) else { continue };
+                    for route in 0..3 {
+                        let mut b = B::new();
+                        let mut stmts = vec![];
+                        match route {
+                            0 => {
+                                stmts.push(b.assign(tv("TA", target), lx.clone()));
+                                stmts.push(b.assign(tv("TB", target), ly.clone()));
+                                stmts.push(b.print(vec![tv("TA", target), tv("TB", target)]));
+                            }
+                            1 => {
+                                // the same through typed variables
+                                stmts.push(b.assign(tv("SX", src), lx.clone()));
+                                stmts.push(b.assign(tv("SY", src), ly.clone()));
+                                stmts.push(b.assign(tv("TA", target), tv("SX", src)));
+                                stmts.push(b.assign(tv("TB", target), tv("SY", src)));
+                                stmts.push(b.print(vec![tv("TA", target), tv("TB", target)]));
+                            }
+                            _ => {
+                                // by-value parameters of two consecutive calls
+                                stmts.push(b.s(K::Call(format!("PV{}", target.keyword()), vec![Expr::Paren(Box::new(lx.clone()))])));
+                                stmts.push(b.s(K::Call(format!("PV{}", target.keyword()), vec![Expr::Paren(Box::new(ly.clone()))])));
+                            }
+                        }
+                        out.push(Snip06 {
+                            snip: Snip { stmts, label: format!("close pair around {} -> {:?} from {:?} order{} route{}", centre, target, src, order, route), ill_typed: false },
+                            stdin: String::new(),
+                            boundary: true,
+                        });
+                    }
+                }
+            }
+        }
+    }
+    out
+}
